@@ -174,6 +174,23 @@ def run_case_shards(prop, header, case_type, cases, shard=300, timeout=600, tag=
         n_eval += n
         ids = [int(x) for x in m.group(2).replace(" ", "").split(";") if x]
         failing.update(ids)
+    if broken:
+        # one serial retry with a doubled time limit: on a loaded machine a shard can be killed (out of memory) or time out
+        # for reasons that have nothing to do with its content; a shard that fails twice stays "not evaluated"
+        still = []
+        sizes = dict(files)
+        for b in broken:
+            fn = b["shard"]; n = sizes[fn]
+            p = subprocess.Popen(["timeout", str(2 * timeout), "coqc", "-w", "none", "-R", os.path.join(COQ, "theories"), "TLV", fn],
+                                 stdout=subprocess.PIPE, stderr=subprocess.PIPE, text=True, cwd=d)
+            out, err = p.communicate()
+            m = re.search(r"=\s*\((\d+)(?:%nat)?,\s*\[([\d;\s]*)\](?:%nat)?\)", out.replace("\n", " ").replace("%nat;", ";").replace("%nat]", "]"))
+            if p.returncode != 0 or not m or int(m.group(1)) != n:
+                still.append({"shard": fn, "rc": p.returncode, "stderr": err[-2000:], "stdout": out[-500:], "retried": True})
+                continue
+            n_eval += n
+            failing.update(int(x) for x in m.group(2).replace(" ", "").split(";") if x)
+        broken = still
     if not broken and not os.environ.get("VERIF_KEEP_CASES"):
         shutil.rmtree(d, ignore_errors=True)
     return failing, n_eval, broken
